@@ -139,6 +139,17 @@ func c10Scenarios() []c10Scenario {
 			Setup:   with(Op{K: "publish", Topic: "t", Msgs: []MsgSpec{m(0, "")}}, Op{K: "pull", Sub: "a", Max: 5}, Op{K: "pull", Sub: "b", Max: 5}),
 			Waiters: []c10Waiter{{Sub: "a", Max: 1, Stream: true}},
 			Writers: []c10Writer{{Op: Op{K: "delay", Refs: []Ref{{N: 0, Sub: "b"}, {N: 0, Sub: "a"}}, D: 0}, Adds: map[string]int{"a": 1, "b": 1}}}},
+		// the first message of an ordering key on an ordered subscription (no predecessor to link behind)
+		{Name: "publish-first-of-key-ordered", Subs: []string{"o", "a"},
+			Setup:   with(Op{K: "create_sub", Sub: "o", Cfg: cfg(SubCfg{Topic: "t", Ordered: true})}),
+			Waiters: []c10Waiter{{Sub: "o", Max: 10}},
+			Writers: []c10Writer{{Op: Op{K: "publish", Topic: "t", Msgs: []MsgSpec{m(0, "k")}}, Adds: map[string]int{"o": 1, "a": 1, "b": 1}}}},
+		// one Acknowledge whose ids span two ordered subscriptions: both successors become deliverable
+		{Name: "ack-spanning-ordered-subs", Subs: []string{"o", "o2"},
+			Setup: with(Op{K: "create_sub", Sub: "o", Cfg: cfg(SubCfg{Topic: "t", Ordered: true})}, Op{K: "create_sub", Sub: "o2", Cfg: cfg(SubCfg{Topic: "t", Ordered: true})},
+				Op{K: "publish", Topic: "t", Msgs: []MsgSpec{m(0, "k"), m(1, "k")}}, Op{K: "pull", Sub: "o", Max: 1}, Op{K: "pull", Sub: "o2", Max: 1}),
+			Waiters: []c10Waiter{{Sub: "o", Max: 10}, {Sub: "o2", Max: 10}},
+			Writers: []c10Writer{{Op: Op{K: "ack", Refs: []Ref{{N: 0, Sub: "o"}, {N: 0, Sub: "o2"}}}, Adds: map[string]int{"o": 1, "o2": 1}}}},
 		{Name: "stream-ack-ordered-predecessor", Subs: []string{"o"},
 			Setup: with(Op{K: "create_sub", Sub: "o", Cfg: cfg(SubCfg{Topic: "t", Ordered: true})},
 				Op{K: "publish", Topic: "t", Msgs: []MsgSpec{m(0, "k"), m(1, "k")}}, Op{K: "pull", Sub: "o", Max: 1}),
